@@ -60,6 +60,8 @@ def run_c12(tier):
     jobs += [{'kind': 'keygen', 'seed': vlib.jseed(seed, i % 6, 1000 + r), 'case': cs} for r in range(preps) for i, cs in enumerate(pools)]
     # seeds whose prescribed scalar starts with 8 / 16 (thorough: 24) zero bits, found with the reference derivation
     jobs.append({'kind': 'keygen-leading-zeros' + ('-deep' if tier == 'thorough' else ''), 'seed': seed, 'case': {}})
+    for k in range(2 if tier == 'quick' else 20):        # key generation between batteries of unrelated calls
+        jobs.append({'kind': 'keygen-after-noise', 'seed': vlib.jseed(seed, 5000 + k), 'case': {}})
     for k in range(2 if tier == 'quick' else 20):        # scalars with structure in their machine words
         jobs.append({'kind': 'keygen-structured-scalars', 'seed': vlib.jseed(seed, 4000 + k), 'case': {}})
     execute(ck, 'C12', jobs)
